@@ -15,6 +15,7 @@ then reports UNRECOGNISED, not a violation.
 from __future__ import annotations
 
 import ast
+import re
 from typing import Dict, List, Optional, Tuple
 
 from .cond import conjuncts, term
@@ -24,7 +25,40 @@ from .paths import function_paths
 HOLE = '\x00'
 STAR = '\x01'        # zero or more repetitions of something (a join over a generator, extend(...))
 UNK = '\x02'         # a name the evaluator could not follow (may stand for literal text): a mismatch involving it is not evidence
+END = '\x03'         # end of a hole label: a hole is HOLE/STAR/UNK + label + END
 MAX_ALTS = 24
+_MARK = re.compile('([\x00\x01\x02])([^\x03]*)\x03')
+
+
+def hole(e=None) -> str:
+    return HOLE + _label(e) + END
+
+
+def star(e=None) -> str:
+    return STAR + _label(e) + END
+
+
+def unk(e=None) -> str:
+    return UNK + _label(e) + END
+
+
+def _label(e) -> str:
+    if e is None:
+        return ''
+    if isinstance(e, str):
+        return e
+    try:
+        return ''.join(norm(e).split())[:120].replace(END, '')
+    except Exception:
+        return ''
+
+
+def is_star(it) -> bool:
+    return isinstance(it, list) and len(it) == 1 and bool(re.fullmatch('\x01[^\x03]*\x03', it[0]))
+
+
+def strip_marks(s: str) -> str:
+    return _MARK.sub('', s)
 
 # a value is a list of alternatives; an alternative is a string over literal characters, HOLE and STAR
 Str = List[str]
@@ -74,13 +108,29 @@ class Evaluator:
         self.consts = dict(consts or {})
         a = fn.args
         self.params = {x.arg for x in a.args + a.kwonlyargs + a.posonlyargs}
+        self.loopvars: Dict[str, str] = {}      # loop variable -> text of the collection it ranges over (on the current path)
+
+    def _member(self, e) -> str:
+        if e is None or isinstance(e, str):
+            return ''
+        out = []
+        for x in ast.walk(e):
+            if isinstance(x, ast.Name) and x.id in self.loopvars and self.loopvars[x.id] not in out:
+                out.append(self.loopvars[x.id])
+        return ''.join('∈' + ''.join(o.split()) for o in out)
+
+    def h(self, e=None) -> str:
+        return HOLE + _label(e) + self._member(e) + END
+
+    def st(self, e=None) -> str:
+        return STAR + _label(e) + self._member(e) + END
 
     def ev(self, e: ast.AST, env: Dict[str, object]) -> object:
         """Str or ListVal."""
         if isinstance(e, ast.Constant):
             if isinstance(e.value, str):
                 return [e.value]
-            return [HOLE]
+            return [self.h(e)]
         if isinstance(e, ast.JoinedStr):
             cur: Str = ['']
             for v in e.values:
@@ -88,7 +138,7 @@ class Evaluator:
                     cur = _cat(cur, [str(v.value)])
                 else:
                     inner = self.ev(v.value, env)
-                    cur = _cat(cur, inner if isinstance(inner, list) else [HOLE])
+                    cur = _cat(cur, inner if isinstance(inner, list) else [self.h(v.value)])
             return cur
         if isinstance(e, ast.BinOp) and isinstance(e.op, ast.Add):
             l, r = self.ev(e.left, env), self.ev(e.right, env)
@@ -96,7 +146,7 @@ class Evaluator:
                 return l.plus(r)
             if isinstance(l, list) and isinstance(r, list):
                 return _cat(l, r)
-            return [HOLE]
+            return [self.h(e)]
         if isinstance(e, ast.Name):
             v = env.get(e.id)
             if isinstance(v, ListVal):
@@ -106,8 +156,8 @@ class Evaluator:
             if e.id in self.consts:
                 return [self.consts[e.id]]
             if e.id in self.params or e.id in env:
-                return [HOLE]
-            return [UNK]
+                return [self.h(e)]
+            return [unk(e)]
         if isinstance(e, ast.IfExp):
             a, b = self.ev(e.body, env), self.ev(e.orelse, env)
             if isinstance(a, list) and isinstance(b, list):
@@ -119,18 +169,18 @@ class Evaluator:
                 if a.items and b.items:
                     return ListVal([_dedup(a.items[0] + b.items[0])])
                 return ListVal([a.items[0] if a.items else b.items[0]], {0})
-            return [HOLE]
+            return [self.h(e)]
         if isinstance(e, (ast.List, ast.Tuple)):
             items = []
             for x in e.elts:
                 if isinstance(x, ast.Starred):
-                    items.append([STAR])
+                    items.append([self.st(x.value)])
                 else:
                     v = self.ev(x, env)
-                    items.append(v if isinstance(v, list) else [HOLE])
+                    items.append(v if isinstance(v, list) else [self.h(x)])
             return ListVal(items)
         if isinstance(e, (ast.ListComp, ast.GeneratorExp)):
-            return ListVal([[STAR]])
+            return ListVal([[self.st(e)]])
         if isinstance(e, ast.Call):
             f = e.func
             if isinstance(f, ast.Attribute) and f.attr == 'join' and len(e.args) == 1:
@@ -138,10 +188,10 @@ class Evaluator:
                 arg = self.ev(e.args[0], env)
                 if isinstance(sep, list) and len(sep) == 1 and isinstance(arg, ListVal):
                     return self.join(sep[0], arg)
-                return [HOLE]
+                return [self.h(e)]
             if isinstance(f, ast.Name) and f.id in self.transparent and e.args:
                 v = self.ev(e.args[0], env)
-                return v if isinstance(v, list) else [HOLE]
+                return v if isinstance(v, list) else [self.h(e)]
             if isinstance(f, ast.Attribute) and f.attr in TRANSPARENT_METHODS:
                 v = self.ev(f.value, env)
                 if isinstance(v, list):
@@ -150,8 +200,8 @@ class Evaluator:
                 v = self.ev(e.args[0], env)
                 if isinstance(v, ListVal):
                     return v.copy()
-            return [HOLE]
-        return [HOLE]
+            return [self.h(e)]
+        return [self.h(e)]
 
     @staticmethod
     def join(sep: str, lv: ListVal) -> Str:
@@ -217,12 +267,40 @@ def skeletons(fn: ast.FunctionDef, unroll: int = 1, transparent=(), consts=None)
         if last.kind != 'return':
             continue
         env: Dict[str, object] = {}
+        evl.loopvars = {}
         lits: List[tuple] = []
         loop_depth_vars: Dict[str, int] = {}
+        feasible = True
         for evn in path:
             n = evn.node
             if evn.kind == 'test':
+                # a test on a tracked list / text whose emptiness is known on this path decides the branch: the other outcome is infeasible
+                t, neg = n, False
+                while isinstance(t, ast.UnaryOp) and isinstance(t.op, ast.Not):
+                    t, neg = t.operand, not neg
+                if isinstance(t, ast.Name) and t.id in env:
+                    v = env[t.id]
+                    known = None
+                    if isinstance(v, ListVal):
+                        if not v.items:
+                            known = False
+                        elif any(i not in v.optional and not is_star(it) for i, it in enumerate(v.items)):
+                            known = True
+                    elif isinstance(v, list) and v and all(isinstance(a, str) for a in v):
+                        if all(a == '' for a in v):
+                            known = False
+                        elif all(strip_marks(a) != '' for a in v):
+                            known = True
+                    if known is not None and (known != neg) != bool(evn.outcome):
+                        feasible = False
+                        break
                 lits.extend(conjuncts(term(n, evn.outcome)))
+                continue
+            if evn.kind == 'iter' and isinstance(n, ast.For):
+                for x in ast.walk(n.target):
+                    if isinstance(x, ast.Name):
+                        if evn.outcome == 'enter':
+                            evl.loopvars[x.id] = norm(n.iter)
                 continue
             if evn.kind != 'stmt' or n is None:
                 continue
@@ -238,14 +316,14 @@ def skeletons(fn: ast.FunctionDef, unroll: int = 1, transparent=(), consts=None)
                 elif isinstance(cur, ListVal) and isinstance(add, ListVal):
                     env[n.target.id] = cur.plus(add)
                 else:
-                    env[n.target.id] = [HOLE]
+                    env[n.target.id] = [evl.h(n.value)]
             elif isinstance(n, ast.Expr) and isinstance(n.value, ast.Call) and isinstance(n.value.func, ast.Attribute) \
                     and isinstance(n.value.func.value, ast.Name) and isinstance(env.get(n.value.func.value.id), ListVal):
                 lv: ListVal = env[n.value.func.value.id]          # type: ignore[assignment]
                 m = n.value.func.attr
                 if m == 'append' and len(n.value.args) == 1:
                     v = evl.ev(n.value.args[0], env)
-                    lv.items.append(v if isinstance(v, list) else [HOLE])
+                    lv.items.append(v if isinstance(v, list) else [evl.h(n.value.args[0])])
                 elif m == 'extend' and len(n.value.args) == 1:
                     v = evl.ev(n.value.args[0], env)
                     if isinstance(v, ListVal):
@@ -253,18 +331,20 @@ def skeletons(fn: ast.FunctionDef, unroll: int = 1, transparent=(), consts=None)
                         lv.items.extend(v.items)
                         lv.optional |= {k0 + i for i in v.optional}
                     else:
-                        lv.items.append([STAR])
+                        lv.items.append([evl.st(n.value.args[0])])
                 elif m == 'insert' and len(n.value.args) == 2 and isinstance(n.value.args[0], ast.Constant) and n.value.args[0].value == 0:
                     v = evl.ev(n.value.args[1], env)
-                    lv.items.insert(0, v if isinstance(v, list) else [HOLE])
+                    lv.items.insert(0, v if isinstance(v, list) else [evl.h(n.value.args[1])])
                     lv.optional = {i + 1 for i in lv.optional}
                 else:
-                    env[n.value.func.value.id] = [HOLE]
+                    env[n.value.func.value.id] = [evl.h(n.value)]
+        if not feasible:
+            continue
         rv = last.node.value if last.node is not None else None
         if rv is None:
             continue
         val = evl.ev(rv, env)
-        alts = val if isinstance(val, list) else [HOLE]
+        alts = val if isinstance(val, list) else [evl.h(rv)]
         for a in alts:
             key = (a, tuple(map(str, lits)))
             if key in seen:
@@ -275,7 +355,12 @@ def skeletons(fn: ast.FunctionDef, unroll: int = 1, transparent=(), consts=None)
 
 
 def show(sk: str) -> str:
-    return sk.replace(HOLE, '◦').replace(STAR, '◦*').replace(UNK, '?')
+    return _MARK.sub(lambda m: {HOLE: '◦', STAR: '◦*', UNK: '?'}[m.group(1)], sk)
+
+
+def show_labelled(sk: str) -> str:
+    """Like show(), with every hole followed by what it holds: ◦⟨model.name⟩."""
+    return _MARK.sub(lambda m: {HOLE: '◦', STAR: '◦*', UNK: '?'}[m.group(1)] + '⟨' + m.group(2) + '⟩', sk)
 
 
 def to_regex_input(sk: str) -> str:
